@@ -132,7 +132,7 @@ Example C38_witness :
               [5; 2; 1; 0; 5; 0]; [5; 2; 1; 0; 1; 0]; [5; 1; 2; 0]; [6]; [6]; [5; 2; 1; 1; 5; 0];
               [7; 8; 3; 1]] in
   cfg_wf cfg = true /\ forallb op_wf ops = true /\
-  run cfg ops = Some [[5; 0; 0; 2; 2; 2]; [5; 2]; [250000; 4; 1; 0; 0; 0]; [1000000; 1; 1]; [0; 1];
-                      [2; 1]; [10; 1]; [0; 2]; [1]; [0]; [3; 0]; [0; 0; 0; 1; 0; 0; 0; 1]] /\
+  run cfg ops = Some [[5; 0; 0; 2; 2; 2]; [5; 2]; [250000; 4; 1; 0; 0; 0]; [1000000; 1; 1]; [0; 1; 0; 2];
+                      [2; 1; 1; 2]; [10; 1; 1; 1]; [0; 2; 0; 0]; [1]; [0]; [3; 0; 0; 2]; [0; 0; 0; 1; 0; 0; 0; 1]] /\
   final [300000; 0] cb0 ops = Some cb0.
 Proof. vm_compute. repeat split. Qed.
